@@ -39,3 +39,49 @@ pub fn check_string(case: &str) -> Result<(), String> {
     }
     Ok(())
 }
+
+// ---- C19: canonical source text parses and prints back unchanged (bounded) ------------------------------------------
+// Rules and facts in the documented syntax.  For each text: the parser accepts it; the printed value is the canonical text
+// (the text itself, or - for infix comparison / arithmetic and facts without arguments - the functional form Display uses);
+// and parsing the printed text gives an equal value.
+pub fn enum_roundtrip(_s: u64) -> Vec<String> {
+    let same = [
+        // facts: atoms, integers, floats with a fractional part, variables, $_, atoms with spaces
+        "p(a).", "parent(Alice, Bob).", "n(1, -3, 2.5, -0.25).", "v($X, $Y, $X).", "w($_, a).", "name(Harry Potter, wizard).",
+        "one(a).", "five(a, b, c, d, e).",
+        // lists with optional tail variable, nested terms
+        "l([]).", "l([a, b, c]).", "l([a, $X | $T]).", "l([[a, b], [c]]).", "l([$H | $T], $H).", "t(f(g(a), $X), [f(a)]).",
+        // conjunction, disjunction (and binds tighter than or)
+        "r($X) :- p($X), q($X).", "r($X) :- p($X); q($X).", "r($X) :- p($X), q($X), s($X).", "r($X) :- p($X); q($X); s($X).",
+        "r($X) :- p($X), q($X); s($X).", "r($X) :- p($X); q($X), s($X).", "r($X) :- a($X), b($X); c($X), d($X).",
+        "r($X) :- a($X); b($X), c($X); d($X).",
+        // not, built-ins
+        "r($X) :- not(p($X)).", "r($X) :- p($X), not(q($X)).", "r($X) :- p($X), !.", "r($X) :- p($X), !, fail.",
+        "r($X) :- $X = a.", "r($X) :- print(value %s, $X), nl.", "r($L, $N) :- count($L, $N).", "r($A, $B, $C) :- append($A, $B, $C).",
+        "r($X, $F) :- functor($X, $F).", "r($L, $O) :- include(p($_), $L, $O).", "r($L, $O) :- exclude(p($_), $L, $O).",
+        "r($X) :- time(p($X)).", "r($L) :- print_list($L).",
+    ];
+    let sugar = [
+        ("zero.", "zero()."),
+        ("r($X) :- p($X), $X == 2.", "r($X) :- p($X), equal($X, 2)."),
+        ("r($X, $Y) :- $X > $Y.", "r($X, $Y) :- greater_than($X, $Y)."),
+        ("r($X, $Y) :- $X >= $Y, $X <= 10, $Y < 3.", "r($X, $Y) :- greater_than_or_equal($X, $Y), less_than_or_equal($X, 10), less_than($Y, 3)."),
+        ("r($X, $Y) :- $Y = $X + 1.", "r($X, $Y) :- $Y = add($X, 1)."),
+        ("r($X, $Y) :- $Y = $X - 1.", "r($X, $Y) :- $Y = subtract($X, 1)."),
+        ("r($X, $Y) :- $Y = $X * 2.", "r($X, $Y) :- $Y = multiply($X, 2)."),
+        ("r($X, $Y) :- $Y = $X / 2.", "r($X, $Y) :- $Y = divide($X, 2)."),
+    ];
+    let mut out: Vec<String> = same.iter().map(|t| format!("{}\u{1}{}", t, t)).collect();
+    out.extend(sugar.iter().map(|(a, b)| format!("{}\u{1}{}", a, b)));
+    out
+}
+
+pub fn check_roundtrip(case: &str) -> Result<(), String> {
+    let (text, canonical) = case.split_once('\u{1}').ok_or("bad case")?;
+    let rule = parse_rule(text).map_err(|e| format!("`{}` is not accepted: {}", text, e))?;
+    let printed = format!("{}", rule);
+    if printed != canonical { return Err(format!("`{}` is printed back as `{}`", text, printed)); }
+    let again = parse_rule(&printed).map_err(|e| format!("the printed text `{}` is not accepted: {}", printed, e))?;
+    if format!("{:?}", again) != format!("{:?}", rule) { return Err(format!("parsing the printed text `{}` gives a different value", printed)); }
+    Ok(())
+}
